@@ -20,7 +20,6 @@ import (
 	"github.com/openconfig/gnmi/proto/gnmi_ext"
 	"google.golang.org/grpc/codes"
 	"google.golang.org/grpc/status"
-	"strings"
 	"time"
 
 	transactionstore "github.com/onosproject/onos-config/pkg/store/v3/transaction"
@@ -1075,7 +1074,7 @@ func addDeleteChildren(index configapi.Index, changeValues map[string]configapi.
 		// if this pathValue has to be deleted, then we need to search for all children of this pathValue
 		if changeValue.Deleted {
 			for _, value := range configStore {
-				if strings.HasPrefix(value.Path, changeValue.Path) && !strings.EqualFold(value.Path, changeValue.Path) {
+				if pathutils.IsDescendantPath(value.Path, changeValue.Path) {
 					value.Index = index
 					value.Deleted = true
 					updChangeValues[value.Path] = value
